@@ -477,7 +477,7 @@ def validate_traces(sc, d, module, cfg, trace_path, shards=None, timeout=1800, h
 # ---------------------------------------------------------------------------
 # running the real code on many cases, robust to crashes and hangs
 
-def harness_map(sc, vh, cmd, items, chunk=20000, base_timeout=30.0, per_item=0.002, extra_args=(), max_bad=40):
+def harness_map(sc, vh, cmd, items, chunk=20000, base_timeout=30.0, per_item=0.002, extra_args=(), max_bad=12):
     """Run `vh <cmd> <in> <out>` over items (one JSON line each, one JSON result line each).
     The harness flushes each result before it starts the next item (VH_FLUSH): when a run crashes (fatal error,
     e.g. stack exhaustion) or exceeds its time budget, the results written so far are kept, the item it was
@@ -488,7 +488,7 @@ def harness_map(sc, vh, cmd, items, chunk=20000, base_timeout=30.0, per_item=0.0
     results = [None] * len(items)
     counter = [0]
 
-    def run_range(a, b):
+    def run_range(a, b, base):
         counter[0] += 1
         tag = "%s-%d-%d-%d" % (cmd, a, b, counter[0])
         fin = sc.path("hm-%s.in" % tag)
@@ -497,7 +497,7 @@ def harness_map(sc, vh, cmd, items, chunk=20000, base_timeout=30.0, per_item=0.0
         status = "ok"
         detail = ""
         try:
-            rc, out = run([vh, cmd, fin, fout] + list(extra_args), timeout=base_timeout + per_item * (b - a), env={"VH_FLUSH": "1"})
+            rc, out = run([vh, cmd, fin, fout] + list(extra_args), timeout=base + per_item * (b - a), env={"VH_FLUSH": "1"})
             if rc != 0:
                 status, detail = "crash", out[-1500:]
         except ToolFailure as e:
@@ -524,7 +524,8 @@ def harness_map(sc, vh, cmd, items, chunk=20000, base_timeout=30.0, per_item=0.0
     def solve(a, b):
         nbad = 0
         while a < b:
-            status, detail, got = run_range(a, b)
+            # (after the first bad item of a chunk the rest is known to be quick up to there: shorter budget)
+            status, detail, got = run_range(a, b, base_timeout if nbad == 0 else min(base_timeout, 8.0))
             results[a:a + len(got)] = got
             a += len(got)
             if status == "ok" or a >= b:
